@@ -365,7 +365,7 @@ func enumerateBudget(p *program, rng *core.Rng, st *core.Stats, stopAtFirst bool
 		}
 		v, kinds := faultedRun(cp, n, N, k0, log0, rerunOK, st)
 		for _, k := range kinds {
-			if interesting[k] {
+			if interesting[k] || strings.HasPrefix(k, "cb:") {
 				sum.NonTrivial = true
 			}
 		}
@@ -480,6 +480,12 @@ func faultedRun(cp *compiled, n, N int64, k0 string, log0 []string, rerunOK bool
 			st.Inc("det:fault_in:(top-level only)")
 		}
 		for _, k := range kinds {
+			if strings.HasPrefix(k, "cb:") {
+				// evidence dimension: instruction positions inside user code invoked by a built-in (built-in > callback kind)
+				st.Inc("det:fault_in_builtin_invoked_code")
+				st.SetAdd("det_builtin_x_callback_kind", k[3:])
+				continue
+			}
 			st.Inc("det:fault_in:" + k)
 		}
 		st.SetAdd("det_fault_cells", strings.Join(kinds, "+"))
